@@ -55,6 +55,14 @@ func ruleC06(r *Report) {
 	checkC06Post(r, p)
 	checkC06Ctx(r, p)
 	checkConfigReadOnly(r, p, "C06.ctx", "saml", "IdentityProvider")
+	// the page written for a request is made from that request alone: the emitting functions use no buffer pool or other
+	// package-level state the library writes (what an earlier, failed write left behind would be sent to the next user)
+	for _, name := range []string{"WriteResponse", "PostBinding"} {
+		if fn := p.Func("saml", "IdpAuthnRequest", name); fn != nil {
+			checkNoProcessStateFor(r, p, fn, "C06.post", "the emitted page depends on this request only (no pooled or package-level buffer)",
+				"the emitting function uses", "bytes an earlier response left behind (a write that failed half-way, a longer page) are sent to the next user together with, or instead of, their own form")
+		}
+	}
 	// the scoping attributes as they leave the builders: the writer/reader rules of C07 restricted to the fields this
 	// property speaks of (a builder that drops or rewrites InResponseTo, Recipient, Destination, Issuer, Audience or a
 	// validity bound changes what "every response the IdP emits" carries, whatever the assertion maker stored)
@@ -729,12 +737,8 @@ func checkC06Post(r *Report, p *Prog) {
 		}
 		n++
 		ok2 := false
-		if calleeIs(c, "io.Copy") || calleeIs(c, "(*bytes.Buffer).WriteTo") {
+		if src := replySource(c); src != nil {
 			// source buffer was filled by Template.Execute(buf, form) with form from PostBinding under err == nil
-			src := c.Call.Args[1]
-			if calleeIs(c, "(*bytes.Buffer).WriteTo") {
-				src = c.Call.Args[0]
-			}
 			fx := rgw.Ctx(a2, x.C)
 			fx.ensureConds()
 			for _, e := range execs {
@@ -762,6 +766,45 @@ func checkC06Post(r *Report, p *Prog) {
 	if n == 0 {
 		r.Bad(rule, p.FnName(wr)+": reply", p.Pos(wr.Pos()), "nothing is written to the response")
 	}
+}
+
+// replySource: the buffer whose content a reply call writes as it is: io.Copy(w, buf), buf.WriteTo(w), w.Write(buf.Bytes()),
+// fmt.Fprint(w, buf.String()) and fmt.Fprintf(w, "%s", buf.Bytes() or buf.String()).
+func replySource(c *ssa.Call) ssa.Value {
+	content := func(v ssa.Value) ssa.Value {
+		v = rootIface(v)
+		if cc, ok := v.(*ssa.Call); ok && (calleeIs(cc, "(*bytes.Buffer).Bytes") || calleeIs(cc, "(*bytes.Buffer).String")) {
+			return cc.Call.Args[0]
+		}
+		return nil
+	}
+	variadic := func(v ssa.Value) []ssa.Value {
+		if sl, ok := v.(*ssa.Slice); ok {
+			if al, ok := sl.X.(*ssa.Alloc); ok && al.Comment == "varargs" {
+				return arrayLiteralElems(al)
+			}
+		}
+		return nil
+	}
+	switch {
+	case calleeIs(c, "io.Copy"):
+		return c.Call.Args[1]
+	case calleeIs(c, "(*bytes.Buffer).WriteTo"):
+		return c.Call.Args[0]
+	case c.Call.IsInvoke() && c.Call.Method.Name() == "Write" && len(c.Call.Args) == 1:
+		return content(c.Call.Args[0])
+	case calleeIs(c, "fmt.Fprint") && len(c.Call.Args) == 2:
+		if el := variadic(c.Call.Args[1]); len(el) == 1 {
+			return content(el[0])
+		}
+	case calleeIs(c, "fmt.Fprintf") && len(c.Call.Args) == 3:
+		if f, ok := constStr(c.Call.Args[1]); ok && f == "%s" {
+			if el := variadic(c.Call.Args[2]); len(el) == 1 {
+				return content(el[0])
+			}
+		}
+	}
+	return nil
 }
 
 func rootIface(v ssa.Value) ssa.Value {
